@@ -128,7 +128,9 @@ func c14frtRun(r *vfRand, c *c14frtCase, tr *zzc14.Trace) (*zzc14.Plan, string) 
 				tr.CtorPanic(fmt.Sprint(e))
 			}
 		}()
+		gate.Open.Store(true) // the constructor runs on the driver's goroutine
 		d, err = NewFullRT(h, prefix, opts...)
+		gate.Open.Store(false)
 	}()
 	plan := &zzc14.Plan{Gate: gate, UseWait: true, CloseAt: c.closeAt, CloseOp1: c.closeOp1, CloseDelay: c.closeDelay, Concurrent2: c.conc2, MaxSteps: 2000, Idle: 10 * time.Second, MaxIdle: 20,
 		Final: func() { _ = h.Close() }}
